@@ -52,6 +52,14 @@ def gen(args) -> list:
 
         def body(ev=ev, sd=sd):
             ld = LocalDate(sd.year, sd.month, sd.day)
+            # month ends are also arrived at by month arithmetic from a longer month (31 December plus two months is the last day of
+            # February): the same date, however it was arrived at
+            import calendar as _cal
+
+            last = sd.day == _cal.monthrange(sd.year, sd.month)[1]
+            if last and sd.year > 1 and sd.month in (2, 4, 6, 9, 11) and (sd.toordinal() % 2 == 0):
+                # from 31 December of the year before, or from 31 January of the same year
+                ld = LocalDate(sd.year - 1, 12, 31).plus_months(sd.month) if sd.toordinal() % 4 == 0 else LocalDate(sd.year, 1, 31).plus_months(sd.month - 1)
             text = LocalDatePattern.iso.format(ld)
             ev["text"] = cps(text)
             r = dt.date.fromisoformat(text)
